@@ -42,7 +42,16 @@ pub fn render_contain(case: &Value) -> String {
             .iter()
             .enumerate()
             .filter(|(_, e)| e["a"].as_u64() == Some(i as u64))
-            .map(|(k, e)| format!("f{}: {}", k + 1, wrap(e["w"].as_u64().unwrap_or(1), &format!("T{}", e["b"]))))
+            .map(|(k, e)| {
+                let (w, t) = (e["w"].as_u64().unwrap_or(1), format!("T{}", e["b"]));
+                match w {
+                    // tagged members (necessarily optional; not in compact types, where the plain optional form stands in)
+                    8 | 9 if compact => format!("f{}: {}", k + 1, wrap(2, &t)),
+                    8 => format!("tag({}) f{}: {t}?", k + 1, k + 1),
+                    9 => format!("tag({}) f{}: Sequence<{t}>?", k + 1, k + 1),
+                    _ => format!("f{}: {}", k + 1, wrap(w, &t)),
+                }
+            })
             .collect();
         if is_enum(kinds, i) {
             // fields hang off the third enumerator, after one without fields and one with an unrelated field
@@ -151,7 +160,7 @@ impl Family for Cycles {
                     .collect();
                 e019.sort();
                 e019.dedup();
-                json!({"ev": "alias", "n": n, "target": case["target"], "e019": e019, "accepted": accepted, "codes": codes})
+                json!({"ev": "alias", "n": n, "target": case["target"], "w": case["w"], "e019": e019, "accepted": accepted, "codes": codes})
             }
             _ => {
                 // every E037: the interface it is attached to (one interface per row, J{i} on row i + 1) and the chain of
